@@ -32,25 +32,43 @@ Proof. exact file_roundtrip. Qed.
 Theorem C07_temp_is_sibling : forall p, str_eqb (render (temp_path p)) (render p) = false.
 Proof. exact temp_is_sibling. Qed.
 
-(* Crash atomicity: in every state a crash can leave behind during a save (any prefix of the temp
-   file written, or the rename done) loading the path yields the previous snapshot or the new one. *)
+(* Crash atomicity.  The save protocol is the list of file-system steps regenerated from the source
+   (create temp, write, [fsync], rename; Inst.gen_steps_safe re-checks every run that both save
+   functions consist of temp-file steps only, leave the temp file complete and end with the one
+   rename).  In EVERY state a crash can leave behind -- between any two steps, or inside the write
+   with any prefix of the content in the temp file -- loading the path yields the previous snapshot
+   or the new one. *)
 Theorem C07_crash_atomic : forall (snap : Type) (deser : bytes -> option snap) (zd : bytes -> option bytes)
-    (load_v2 : bytes -> option snap) f p content f',
-  save_state f (render p) (render (temp_path p)) content f' ->
+    (load_v2 : bytes -> option snap) steps f p content f',
+  steps = gen_save_steps_v3 \/ steps = gen_save_steps_quant ->
+  save_state steps f (render p) (render (temp_path p)) content f' ->
   load snap deser zd load_v2 f' (render p) = load snap deser zd load_v2 f (render p)
   \/ load snap deser zd load_v2 f' (render p) = load_bytes snap deser zd load_v2 content.
-Proof. exact crash_atomic_load. Qed.
+Proof.
+  intros snap deser zd load_v2 steps f p content f' Hsteps.
+  apply crash_atomic_load. destruct Hsteps as [E|E]; rewrite E; apply gen_steps_safe.
+Qed.
 Example C07_crash_atomic_nonvacuous :
-  save_state (fun _ => None) [115] [115; 46; 116] [1; 2; 3] (fs_set (fun _ => None) [115; 46; 116] (Some (firstn 2 [1; 2; 3]))).
-Proof. apply (ss_partial _ _ _ _ 2%nat). cbn. lia. Qed.
+  save_state gen_save_steps_v3 (fun _ => None) [115] [115; 46; 116] [1; 2; 3]
+             (fs_set (run_steps [115] [115; 46; 116] [1; 2; 3] (fun _ => None) (firstn 1 gen_save_steps_v3))
+                     [115; 46; 116] (Some (firstn 2 [1; 2; 3]))).
+Proof. apply (ss_partial _ _ _ _ _ 1%nat 2%nat); [reflexivity|cbn; lia]. Qed.
 
 (* With the earlier temp rule (Path::with_extension) the statement is false: a target that already
    has the temp extension is truncated in place (fixed in /repo; kept as the replayed witness). *)
 Theorem C07_crash_atomic_with_extension_refuted :
   exists (f : fs) (p : path) (content : bytes) (f' : fs),
-    save_state f (render p) (render (temp_path_with 0 tmp_s p)) content f'
+    save_state [0; 1; 4] f (render p) (render (temp_path_with 0 tmp_s p)) content f'
     /\ f' (render p) <> f (render p) /\ f' (render p) <> Some content.
 Proof. exact crash_refuted_with_extension. Qed.
+
+(* A protocol that removes the target before renaming is not atomic either, sibling temp or not:
+   between the unlink and the rename the path holds neither snapshot. *)
+Theorem C07_crash_atomic_unlink_first_refuted :
+  exists (f : fs) (p t : str) (content : bytes) (f' : fs),
+    str_eqb t p = false /\ save_state [0; 1; 3; 4] f p t content f'
+    /\ f' p <> f p /\ f' p <> Some content.
+Proof. exact crash_refuted_unlink_first. Qed.
 
 (* Embeddings below the tensor-train threshold, and sparse ones of any length, come back bit-identical
    from the embedding slab's snapshot form. *)
@@ -113,6 +131,7 @@ Print Assumptions C07_file_roundtrip.
 Print Assumptions C07_temp_is_sibling.
 Print Assumptions C07_crash_atomic.
 Print Assumptions C07_crash_atomic_with_extension_refuted.
+Print Assumptions C07_crash_atomic_unlink_first_refuted.
 Print Assumptions C07_embedding_exact.
 Print Assumptions C07_store_roundtrip.
 Print Assumptions C07_quant_exact.
